@@ -2,7 +2,7 @@
 import ast
 
 from sa import automata as A
-from sa.core import (AnalysisError, FUNC, assignments, call_name, class_attr, const, dotted, enclosing, enclosing_func,
+from sa.core import (caching_decorators, AnalysisError, FUNC, assignments, call_name, class_attr, const, dotted, enclosing, enclosing_func,
                      enclosing_stmt, is_attr, is_name, is_self_attr, literal, norm, params, parent, walk_local, names_in)
 from sa.guards import facts, always_leaves, _block_of
 from sa.strshape import Shaper
@@ -41,6 +41,7 @@ def run(cx):
     cx.rule("R09e", "ColorFmt and ColorBytes build their sequences identically (only make_bytes differs)")
     cx.rule("R09f", "numeric mappings follow the SGR / xterm-256 tables")
     cx.rule("R09g", "_make_seq_element returns an element or raises ValueError on every path")
+    cx.rule("R09h", "validation cannot be bypassed by memoisation: the validating / emitting functions are not cached by argument equality")
     cx.trust("ECMA-48 SGR parameters 1,2,4,5,9,3x,4x,38:5:n,48:5:n and reset 0; xterm 256-colour cube 16+36r+6g+b and grey ramp 232..255")
 
     # ------------------------------------------------------------------ R09a
@@ -109,6 +110,12 @@ def run(cx):
     cx.ob("R09a", make, w2 is None, "every emitted sequence is ESC[ code(;code)* m with SGR codes, or the reset" if w2 is None else
           f"make() can produce {w2!r}, which is not a well-formed SGR sequence of this package", stmt="emit ⊆ SGR grammar")
 
+    # ------------------------------------------------------------------ R09h
+    for f in (make, elem, cx.func(REL, "ColorFmt.__init__", "R09h"), cx.func(REL, "ColorBytes.__init__", "R09h")):
+        cd = caching_decorators(f)
+        cx.ob("R09h", f, not cd, "not memoised" if not cd else
+              f"`@{norm(cd[0])}` caches results by argument *equality*: after a valid colour (7, (1,2,3)) an equal-comparing invalid one (7.0, True, (1.0,2.0,3.0)) "
+              f"hits the cache and is never validated (no ValueError), and outputs acquire a memory", stmt=f"def {f.name}(...) [decorators]")
     # ------------------------------------------------------------------ R09b / R09d in make
     _check_make(cx, make, elem, sh)
     # ------------------------------------------------------------------ R09g / R09f in _make_seq_element
